@@ -27,6 +27,7 @@ func c14(c *eng.Ctx, r *eng.Report) {
 		"R14.7 VerifySig is the only function of the node that evaluates the signature pairing (no second, e.g. aggregated, definition of validity), and the scalar hex printer/parser are an inverse pair. " +
 		"R14.8 the pairing is 1 as soon as either operand is the identity: optimalAte tests IsInfinity() of both its operands and sets the result to one under either (e(P,O) = e(O,Q) = 1 is what bilinearity needs at k = 0 and k = order). " +
 		"R14.9 a groupsig function whose pointer result some caller dereferences without a nil test (`*groupsig.DeserializeSign(raw)`) has no nil return — a malformed signature from a peer verifies as false, it does not crash the verifier. " +
+		"R14.12 every addition formula has its doubling exit: a function of the bn256 package reachable from (*curvePoint).Add or (*twistPoint).Add that subtracts field elements (the chord formulas divide by the difference of the operands' coordinates) also calls Double of its point type — P + P is 2P, not the identity the chord formula yields for equal operands (e(P+P, Q) = e(P, Q)^2, and a scalar multiplication whose running sum meets its base keeps going); " +
 		"R14.11 the key and signature decoders hand the curve decoder the bytes they were given: the argument of G1/G2.Unmarshal in Pubkey.Deserialize, Signature.Deserialize and unmarshalExact is the function's own parameter, not a buffer substituted on some condition of its content (an encoding that merely starts with 0x00 is not the identity); " +
 		"R14.10 negation keeps a point well-formed: twistPoint.Neg and curvePoint.Neg carry the cached z² (field t) over from their argument — zeroing it leaves an affine point (z = 1) with t = 0, which MakeAffine does not repair, and the Miller loop then computes a different value for the same group element (finding F26, fixed). " +
 		"Not decided: bilinearity, non-degeneracy, subgroup membership, soundness (algebraic; the baseline's curve tests sample them)."
@@ -51,6 +52,7 @@ func c14(c *eng.Ctx, r *eng.Report) {
 	c14NoNilResult(c, r)
 	c14NegKeepsT(c, r)
 	c14DecoderInputVerbatim(c, r)
+	c14AddHandlesDoubling(c, r)
 }
 
 func c14Verify(c *eng.Ctx, r *eng.Report) {
@@ -621,4 +623,44 @@ func c14DecoderInputVerbatim(c *eng.Ctx, r *eng.Report) {
 		}
 	}
 	r.Check(n >= 2, rule, "decoder-input:sites", "", fmt.Sprintf("%d Unmarshal calls in the key/signature decoders", n), fmt.Sprintf("only %d G1/G2.Unmarshal calls found in the decoders", n))
+}
+
+// c14AddHandlesDoubling: see R14.12.
+func c14AddHandlesDoubling(c *eng.Ctx, r *eng.Report) {
+	const rule = "R14.12"
+	r.Min(rule, 2)
+	for _, typ := range []string{"curvePoint", "twistPoint"} {
+		add := c.Func(bnPkg, "(*"+typ+").Add")
+		if !r.Anchor(add != nil, rule, "bn256.(*"+typ+").Add") {
+			continue
+		}
+		cone := c.ConeOf([]*ssa.Function{add}, func(fn *ssa.Function) bool { return strings.HasSuffix(eng.FuncPkgPath(fn), "/"+bnPkg) })
+		n := 0
+		for _, fn := range cone.Sorted() {
+			if fn.Blocks == nil || !strings.HasSuffix(eng.FuncPkgPath(fn), "/"+bnPkg) || fn.Signature.Recv() == nil {
+				continue
+			}
+			if !strings.HasSuffix(fn.Signature.Recv().Type().String(), "."+typ) || fn.Name() == "Double" {
+				continue
+			}
+			subs, doubles := false, false
+			for _, s := range eng.Sites(fn) {
+				nm := s.Name()
+				if strings.HasSuffix(nm, ".gfpSub") || strings.HasSuffix(nm, "gfP2).Sub") {
+					subs = true
+				}
+				if strings.HasSuffix(nm, "(*"+bnPkg+"."+typ+").Double") {
+					doubles = true
+				}
+			}
+			if !subs {
+				continue
+			}
+			n++
+			r.Check(doubles, rule, "doubling-exit:"+eng.FuncName(fn), c.Pos(fn.Pos()), "the chord formula has a Double exit for equal operands", eng.FuncName(fn)+" adds two points with a chord formula (it subtracts their coordinates) and never calls Double: for equal operands h = 0 and r = 0, and the formula returns z = 0 — the identity — instead of 2P; G1.Add(P, P) on a parsed signature is then the identity, e(P+P, Q) != e(P, Q)^2, and a scalar multiplication whose running sum meets its base point loses the rest of the scalar")
+		}
+		if n == 0 {
+			r.Fail(rule, "doubling-exit:"+typ, c.Pos(add.Pos()), "no chord formula found under (*"+typ+").Add: the rule has lost its anchor")
+		}
+	}
 }
